@@ -1,2 +1,7 @@
-/-! Driver for C05 (stub: not built yet). -/
-def main : IO Unit := pure ()
+import Drivers.Proto
+import PymocaVerif.Model.ObjGraphJson
+/-! Driver for C05: `find_class`/`deepcopy` shapes and the write footprint of `tree.flatten` on an
+    exported object graph, computed by the `ObjGraph` model. -/
+open Lean Drivers PymocaVerif.ObjGraph
+
+def main : IO Unit := serve handleGraph
